@@ -22,6 +22,9 @@ type ScriptConn struct {
 	Deadlines int
 	Consumed  int
 	WriteErr  error
+	BlockFor  time.Duration // > 0: a Read with no data waits up to this long before failing
+	EndReads  int           // consecutive reads answered with the ending error
+	Spun      bool          // the code under test kept reading after the stream had ended (busy loop)
 	// OnWrite, if set, is called (without the lock) after each Write with the bytes written;
 	// it may Feed more input (a responding peer).
 	OnWrite func(b []byte)
@@ -40,6 +43,7 @@ func NewScriptConn() *ScriptConn { return &ScriptConn{ending: "timeout"} }
 func (c *ScriptConn) Arm(chunks [][]byte, ending string) {
 	c.mu.Lock()
 	defer c.mu.Unlock()
+	c.EndReads = 0
 	c.chunks = nil
 	for _, ch := range chunks {
 		c.chunks = append(c.chunks, append([]byte(nil), ch...))
@@ -93,7 +97,26 @@ func (c *ScriptConn) Read(b []byte) (int, error) {
 	if len(b) == 0 {
 		return 0, nil
 	}
+	if len(c.chunks) == 0 && c.BlockFor > 0 {
+		// blocking mode: wait (bounded) for the peer to feed data, like a socket with a deadline
+		deadline := time.Now().Add(c.BlockFor)
+		for len(c.chunks) == 0 && !c.closed && time.Now().Before(deadline) {
+			c.mu.Unlock()
+			time.Sleep(20 * time.Microsecond)
+			c.mu.Lock()
+		}
+		if c.closed {
+			return 0, net.ErrClosed
+		}
+	}
 	if len(c.chunks) == 0 {
+		c.EndReads++
+		if c.EndReads > 300 {
+			// watchdog: the stream has ended 300 times over and the code still reads: break the loop
+			c.Spun = true
+			c.closed = true
+			return 0, net.ErrClosed
+		}
 		c.Trace = append(c.Trace, fmt.Sprintf("read(%d)=%s", len(b), c.ending))
 		switch c.ending {
 		case "eof":
@@ -104,6 +127,7 @@ func (c *ScriptConn) Read(b []byte) (int, error) {
 			return 0, os.ErrDeadlineExceeded
 		}
 	}
+	c.EndReads = 0
 	ch := c.chunks[0]
 	n := copy(b, ch)
 	if n == len(ch) {
